@@ -221,27 +221,42 @@ func c03Containers(p *core.Program, r *core.Report) {
 				return true
 			}
 			got := map[string]bool{}
-			ast.Inspect(loop.Body, func(m ast.Node) bool {
-				switch v := m.(type) {
-				case *ast.CallExpr:
-					if sel, ok := v.Fun.(*ast.SelectorExpr); ok {
-						if f, ok := setters[sel.Sel.Name]; ok && len(v.Args) == 1 && isRecvField(info, fi, v.Args[0], f) {
-							got[f] = true
+			// scan the loop body and, through same-receiver helper calls (extracted stamping helpers), their bodies
+			var scan func(body ast.Node, sfi *core.FuncInfo, depth int)
+			scan = func(body ast.Node, sfi *core.FuncInfo, depth int) {
+				ast.Inspect(body, func(m ast.Node) bool {
+					switch v := m.(type) {
+					case *ast.CallExpr:
+						if sel, ok := v.Fun.(*ast.SelectorExpr); ok {
+							if f, ok := setters[sel.Sel.Name]; ok && len(v.Args) == 1 && isRecvField(info, sfi, v.Args[0], f) {
+								got[f] = true
+							}
+							if depth < 2 {
+								if fn, _ := info.Uses[sel.Sel].(*types.Func); fn != nil {
+									if rid, isId := ast.Unparen(sel.X).(*ast.Ident); isId && sfi.Decl.Recv != nil && len(sfi.Decl.Recv.List) == 1 && len(sfi.Decl.Recv.List[0].Names) == 1 &&
+										info.ObjectOf(rid) == info.Defs[sfi.Decl.Recv.List[0].Names[0]] {
+										if cfi := p.FuncOf(fn); cfi != nil && cfi.Decl.Body != nil && cfi.Pkg == sfi.Pkg {
+											scan(cfi.Decl.Body, cfi, depth+1)
+										}
+									}
+								}
+							}
 						}
-					}
-				case *ast.AssignStmt:
-					for i, l := range v.Lhs {
-						if sel, ok := l.(*ast.SelectorExpr); ok && i < len(v.Rhs) {
-							for _, f := range want {
-								if sel.Sel.Name == f && isRecvField(info, fi, v.Rhs[i], f) {
-									got[f] = true
+					case *ast.AssignStmt:
+						for i, l := range v.Lhs {
+							if sel, ok := l.(*ast.SelectorExpr); ok && i < len(v.Rhs) {
+								for _, f := range want {
+									if sel.Sel.Name == f && isRecvField(info, sfi, v.Rhs[i], f) {
+										got[f] = true
+									}
 								}
 							}
 						}
 					}
-				}
-				return true
-			})
+					return true
+				})
+			}
+			scan(loop.Body, fi, 0)
 			var missing []string
 			for _, f := range want {
 				if !got[f] {
